@@ -70,7 +70,7 @@ type shared struct {
 	paths, pathsDone, pathsPruned, pathsBound, pathsUnknown int
 	decisions                                               int64
 	steps                                                   int64
-	q, qSat, qUnsat, qUnknown                               int
+	q, qSat, qUnsat, qUnknown, qRetried                     int
 	solverSecs                                              float64
 	samples                                                 []map[string]interface{}
 	obsLogs                                                 []string
@@ -362,6 +362,10 @@ func (i *interpreter) concretize(t *Term, what string) uint64 {
 }
 
 func (s *solver) termValues(ts []*Term) ([]*big.Int, error) {
+	if s.alt != nil {
+		// the last answer came from a fall-back solver: the model is there
+		return s.alt.termValues(ts)
+	}
 	var names []string
 	res := make([]*big.Int, len(ts))
 	var idx []int
@@ -742,6 +746,7 @@ func (sh *shared) collectSolverStats(s *solver) {
 	sh.qSat += s.nSat
 	sh.qUnsat += s.nUnsat
 	sh.qUnknown += s.nUnknown
+	sh.qRetried += s.nRetried
 	sh.solverSecs += s.secs
 	sh.mu.Unlock()
 }
@@ -754,8 +759,12 @@ func (sh *shared) worker(id int, wg *sync.WaitGroup) {
 		return
 	}
 	defer sol.close()
-	if sh.opts.smtLog != "" && id == 0 {
-		f, _ := os.Create(sh.opts.smtLog)
+	if sh.opts.smtLog != "" && (id == 0 || strings.HasSuffix(sh.opts.smtLog, "-all")) {
+		name := sh.opts.smtLog
+		if id != 0 {
+			name = fmt.Sprintf("%s.w%d", name, id)
+		}
+		f, _ := os.Create(name)
 		sol.log = f
 		defer f.Close()
 	}
